@@ -34,6 +34,44 @@ def quiet_logging():
         lg.addHandler(logging.NullHandler())
 
 
+class LogTap(logging.Handler):
+    """Records what pyx12 reports through its loggers during one operation (the log is a report channel of its own:
+    every error the engine files is also logged).  Logging stays globally disabled outside the context."""
+
+    def __init__(self):
+        logging.Handler.__init__(self, logging.ERROR)
+        self.records = []
+
+    def emit(self, record):
+        try:
+            self.records.append((record.name, record.getMessage()))
+        except Exception:
+            self.records.append((record.name, str(record.msg)))
+
+    def patched(self):
+        tap = self
+
+        class _Ctx(object):
+            def __enter__(self_):
+                self_.lg = logging.getLogger('pyx12')
+                self_.disable = logging.root.manager.disable
+                self_.propagate = self_.lg.propagate
+                logging.disable(logging.NOTSET)
+                self_.lg.propagate = False
+                self_.lg.addHandler(tap)
+                return tap
+
+            def __exit__(self_, *a):
+                self_.lg.removeHandler(tap)
+                self_.lg.propagate = self_.propagate
+                logging.disable(self_.disable)
+                return False
+        return _Ctx()
+
+    def engine_errors(self):
+        return [m for n, m in self.records if n == 'pyx12.error_handler']
+
+
 def drop_root_handlers(keep=()):
     """pyx12.scripts.*.main() adds a root StreamHandler per call; remove them."""
     root = logging.getLogger()
